@@ -155,6 +155,14 @@ func verif_C16_envelope() {
 	}
 	script += "250 2.0.0 noop\r\n"
 	c, vc := verifClient(script, nil)
+	if nondetBool() {
+		// every reply line arrives in a network read of its own
+		for i := 0; i < len(script); i++ {
+			if script[i] == '\n' {
+				vc.cuts = append(vc.cuts, i+1)
+			}
+		}
+	}
 	c.lmtp = lmtp
 	verifAssert(c.Mail("s@v", nil) == nil, "C16.env-mail-accepted")
 	for _, a := range list {
